@@ -129,23 +129,9 @@ func nilErrReturnBlocks(fn *ssa.Function, ri int) []*ssa.BasicBlock {
 		if ri >= len(ret.Results) {
 			continue
 		}
-		v := core.Strip(ret.Results[ri])
-		if core.IsNilConst(v) {
-			out = append(out, ret.Block())
-			continue
-		}
-		if definitelyNonNil(v) {
-			continue
-		}
-		// unknown: may be nil — unless facts at the return say it is non-nil
-		fs := core.FactsAt(ret.Block())
-		nonnil := false
-		for _, f := range fs {
-			if f.Kind == core.FNil && !f.Bool && core.Strip(f.X) == v {
-				nonnil = true
-			}
-		}
-		if !nonnil {
+		// errors.Wrap(err, …) is nil exactly when err is: such a return counts as an error return only
+		// where err is known to be non-nil
+		if core.MayReturnNil(ret, ri) {
 			out = append(out, ret.Block())
 		}
 	}
